@@ -225,6 +225,8 @@ def observe_ops(m, env):
     stale = []
 
     def answers(x):
+        if n > 22:          # bigger inputs: the cheaper half
+            return ser((str(x), x.atoms_order, x.sssr, x.rings_count))
         return ser((str(x), x.smiles_atoms_order, x.atoms_order, x.sssr, x.rings_count, sorted(sorted(c_) for c_ in x.connected_components),
                     [(a.charge, a.is_radical, a.implicit_hydrogens, a.hybridization, a.ring_sizes, a.in_ring) for _, a in x.atoms()]))
     for name, kw in OPS:
